@@ -126,7 +126,7 @@ func init() {
 		ID:    "C04",
 		Level: "exploration",
 		Rule: "cases are all sequences (up to a length bound) over {assign a|b a value of type int|string|array, read a|b, open @if|@else|@elseif|@each|@for block, close block}, each under every pre-binding of a and b in the data map (unbound or one of three types); every assignment carries a distinct value so a read identifies the assignment it observed; plus all ordered type pairs (7 kinds) for re-assignment in the same block, in a nested block, against data and as loop variable, the reserved name loop in every binding position, and seeded random scope-heavy programs. " +
-			"Each program is rendered by the real code and compared with an interpreter that keeps an explicit scope chain. array results across blocks, insert bodies assigning layout variables, capitalised look-alike data names; round 9: built-in results assigned in blocks; scale: blocks 300 deep; concurrent replay; rounds 10-11: data-less render sequences, saved loop objects; distinct_nontrivial = distinct sources with at least one assignment or read",
+			"Each program is rendered by the real code and compared with an interpreter that keeps an explicit scope chain. array results across blocks, insert bodies assigning layout variables, capitalised look-alike data names; round 9: built-in results assigned in blocks; scale: blocks 300 deep; concurrent replay; rounds 10-11: data-less render sequences, saved loop objects; rounds 12-13: 182 names over the alphabet, operators leave their operands alone; distinct_nontrivial = distinct sources with at least one assignment or read",
 		Assumptions: []string{
 			"a loop is one block for all its passes (a name assigned in one pass is visible in the next)",
 			"component arguments colliding in type with visible names are exercised by C07's tree workload as well",
